@@ -429,6 +429,9 @@ class HierDictDocument(DictDocument):
                 cls, = ti.values()
                 ti = getattr(cls, '_type_info', {})
 
+            if inst is None:  # the wrapped value itself is null
+                return None
+
         # transform the results into a dict:
         if cls.Attributes.max_occurs > 1:
             if inst is not None:
